@@ -329,6 +329,9 @@ type zzC18Vec struct {
 	E        int64    `json:"e"`
 	Fill     string   `json:"fill"`
 	Verdicts []string `json:"verdicts"`
+
+	// Re-run of a recorded serialised week (milliseconds).
+	WMs [][2]int64 `json:"wms"`
 }
 
 func zzC18WeekOfSeconds(w [][2]int64) (wk zzC18Week, ok bool) {
@@ -375,6 +378,22 @@ func TestZZVerifC18Replay(t *testing.T) {
 		case "ser":
 			sers++
 			serBad += zzC18ReplaySer(w, rng, v, zones)
+		case "week":
+			// Isolated re-run of a trace line: report what the decoders do.
+			var wk zzC18Week
+			if len(v.WMs) != 7 {
+				return
+			}
+
+			for i, r := range v.WMs {
+				wk[i] = [2]int64{r[0] * int64(time.Millisecond), r[1] * int64(time.Millisecond)}
+			}
+
+			what, detail, acc := zzC18CheckDocs(rng, v.Zone, wk, []string{"accept", "reject"})
+			w.put(map[string]any{
+				"kind": "week", "c": v.C, "ser": []int{zzC18Bit(acc[0]), zzC18Bit(acc[1]), zzC18Bit(what == "")},
+				"what": what, "detail": detail,
+			})
 		}
 	})
 
@@ -798,6 +817,14 @@ func zzC18DayOffsets(t time.Time, loc *time.Location) (offs []int64) {
 	}
 
 	return offs
+}
+
+func zzC18Bit(x bool) (b int) {
+	if x {
+		return 1
+	}
+
+	return 0
 }
 
 // zzC18TraceSer logs how the real decoders treat a random serialised
